@@ -18,8 +18,10 @@ package inject
 //@ iface TypeMapper.Set(this, typ, val) r
 //@   modifies this.version
 //@   ensures r == this
+//@ ghost field Injector.parentScope Injector   // the scope consulted after this one, as set through the interface
 //@ iface Injector.SetParent(this, parent)
-//@   modifies this.version
+//@   modifies this.version, this.parentScope
+//@   ensures this.parentScope == parent
 
 //@ func New
 //@   props C03 C04 C05
